@@ -390,6 +390,71 @@ def run_fault(case):
             if fail is None:
                 fail = oracle_repair(w)
             return fail, info
+        if kind == 'two_process':
+            # REAL concurrency (thorough tier only; not deterministic - it can only add genuine failures, and what is saved is the
+            # observed failure text): a writer process that keeps deleting and re-saving the entry, and this process as a reader
+            # that forgets its memory and parses again and again; the file itself never changes.
+            w.parse()
+            fresh = w.fresh()
+            rfd, wfd = os.pipe()
+            pid = os.fork()
+            if pid == 0:
+                status = 0
+                try:
+                    os.close(rfd)
+                    end = time.time() + fault['seconds']
+                    msg = b''
+                    n = 0
+                    while time.time() < end:
+                        n += 1
+                        try:
+                            for pk_ in w.pickles():
+                                if n % 3 == 0:
+                                    try:
+                                        os.remove(pk_)
+                                    except OSError:
+                                        pass
+                            pcache.parser_cache.clear()
+                            if n % 2:
+                                t_ = time.time() - 4900 + n * 0.01   # touch (newer than before, always in the past): the entry on disk becomes outdated and is re-saved
+                                os.utime(w.path, (t_, t_))
+                            with warnings.catch_warnings():
+                                warnings.simplefilter('ignore')
+                                m_ = w.parse()
+                            d_ = first_tree_diff(m_, fresh)
+                            if d_:
+                                msg = ('writer got a wrong tree: %s' % d_).encode('utf-8', 'replace')
+                                break
+                        except Exception as e:     # noqa
+                            msg = ('writer: %s: %s' % (type(e).__name__, str(e)[:200])).encode('utf-8', 'replace')
+                            break
+                    os.write(wfd, (b'%d\n' % n) + msg)
+                except BaseException:
+                    status = 1
+                finally:
+                    os._exit(status)
+            os.close(wfd)
+            fail = None
+            reads = 0
+            end = time.time() + fault['seconds']
+            try:
+                while time.time() < end and fail is None:
+                    reads += 1
+                    pcache.parser_cache.clear()
+                    fail = oracle_after_fault(w)
+                    if fail is not None:
+                        fail = (fail[0] + '+two-processes', fail[1])
+            finally:
+                with os.fdopen(rfd, 'rb') as fh:
+                    out = fh.read()
+                os.waitpid(pid, 0)
+            writes, _, wmsg = out.partition(b'\n')
+            info['two_process'] = {'reads': reads, 'writes': int(writes or 0)}
+            if fail is None and wmsg:
+                fail = ('parse-fails-in-concurrent-writer', wmsg.decode('utf-8', 'replace'))
+            if fail is None:
+                fail = oracle_repair(w)
+            return fail, info
         if kind == 'maintenance':
             w.parse()
             pk = w.pickles()[0]
@@ -525,7 +590,7 @@ class C17(Prop):
             '(class dictionaries of the tree classes unchanged, a plain parse works - unpickling corrupted bytes can modify classes). Non-trivial: the fault was reached '
             '(injected call executed / on-disk state changed). Distinct by (module, fault).')
     assumptions = ['runs as root: permission bits are not enforced, read-only directories are modelled by EACCES injection',
-                   'two real processes are modelled by the deterministic writer/reader interleaving (thorough adds none beyond that)',
+                   'two processes: the deterministic writer/reader interleaving in both tiers; the thorough tier adds a REAL two-process stress (a forked writer that deletes / outdates / re-saves the entry while this process re-reads it), which is not deterministic and can only add genuine failures',
                    'workers run under an 8 GiB address-space limit: allocation bombs of corrupted pickles show as MemoryError (which parse() must survive), not as an out-of-memory kill of the machine']
     budgets = {'quick': 2000, 'thorough': 240000}
     time_caps = {'quick': 200, 'thorough': 1500}
@@ -564,6 +629,10 @@ class C17(Prop):
         return st.fixed_dictionaries({'module': module, 'fault': fault})
 
     def enumerate(self, tier, seed):
+        if tier == 'thorough':
+            for mi in range(len(MODULES)):
+                for k in range(4):
+                    yield {'module': mi, 'fault': {'kind': 'two_process', 'seconds': 4, 'round': k}}
         sizes = {}
         for mi, content in enumerate(MODULES):
             w = World(content)
@@ -627,8 +696,12 @@ class C17(Prop):
             classes.append('inject:%s:%s' % (f['scenario'], f['func']))
         if info.get('undetectable'):
             classes.append('flip-gives-valid-pickle-of-other-tree(not claimed)')
+        units = 1
+        if info.get('two_process'):
+            units = info['two_process']['reads'] + info['two_process']['writes']
+            classes.append('real-two-process-stress')
         return Outcome(fail=fail, nontrivial=bool(info.get('reached')), classes=classes,
-                       key=digest(case['module'], sorted(f.items())))
+                       key=digest(case['module'], sorted(f.items())), units=units)
 
     def sample_repr(self, case):
         m = case['module']
